@@ -128,12 +128,6 @@ inductive Agg
   | str (fields : Env)
   deriving Repr, Inhabited
 
-/-- Declaration of an aggregate PROGRAM variable. -/
-inductive AggDecl
-  | arr (lo hi : Int) (elem : Ty)
-  | str (tyName : String) (fields : List (String × Ty))
-  deriving Repr, Inhabited
-
 structure XProgram where
   name : String := "P"
   funcs : List FuncDef
@@ -182,15 +176,9 @@ def getAgg (σ : XStore) (a : String) : Option Agg := (σ.aggs.find? (fun p => p
 def setAgg (σ : XStore) (a : String) (v : Agg) : XStore :=
   { σ with aggs := σ.aggs.map fun p => if p.1 = a then (p.1, v) else p }
 
-/-- `eval/expr/access.rs: index_to_i64` — ULINT is cast with `as i64`. -/
-def indexToI64 : Val → M Int
-  | .i .ulint x => pure (if x ≤ i64Max then x else x - 18446744073709551616)
-  | .i _ x => pure x
-  | .b _ => fault .TypeMismatch .indexNotInt
-
 /-- `array_offset` for one dimension: bounds check, then the offset. -/
 def arrayOffset (lo hi : Int) (iv : Val) : M Nat := do
-  let n ← indexToI64 iv
+  let n ← indexToI64 .real iv
   if n < lo ∨ n > hi then fault .IndexOutOfBounds .indexBounds else pure (n - lo).toNat
 
 def instVars (σ : XStore) (c : String) : Option Env :=
